@@ -37,7 +37,8 @@ def cpp_specs(ctx, files_quick=7, per_file=80, rand_files_quick=2, rand_per_file
         rng.shuffle(flat)
         chunks = list(C.chunks(flat, per_file))
     for i, ch in enumerate(chunks):
-        specs.append({tag: True, 'kind': 'seq', 'seqs': ch, 'wrap': False, 'seed': ctx.seed * 1000 + i})
+        specs.append({tag: True, 'kind': 'seq', 'seqs': ch, 'wrap': False, 'seed': ctx.seed * 1000 + i,
+                      'O1': (not ctx.quick) and i % 12 == 5})
     # wrapped variants: few sequences, many wrapper types
     nwrap = ctx.pick(1, 24)
     for i in range(nwrap):
@@ -74,7 +75,10 @@ def open_full(spec, acc, wd, want_python=False):
         with open(src, 'w') as f:
             f.write(cppdrv.full_driver_source(sch, names))
         binary = os.path.join(wd, 'drv')
-        cppdrv.compile_cpp([src, os.path.join(gen, 'sch.ppf.cpp')], binary, [gen])
+        # thorough tier: a sample of the files is rebuilt at -O1 (different inlining exposes different UB to the sanitizers)
+        cppdrv.compile_cpp([src, os.path.join(gen, 'sch.ppf.cpp')], binary, [gen], extra=(['-O1'] if spec.get('O1') else []))
+        if spec.get('O1'):
+            acc.count('schema_files_compiled_at_O1')
     except cppdrv.BuildFailed as e:
         acc.prereq({'stage': e.stage, 'error': str(e)[-1500:], 'schema': text[:1500]})
         return None
